@@ -69,6 +69,55 @@ theorem C20_gen_resolve_guards :
       ("linkBandwidth", ["for link_cfg in links_cfg"])] := by
   decide
 
+/-- **every truthiness test of a value in the loader functions** (regenerated): the places where a falsy-but-legal value of the file
+could take the wrong branch. Each one listed here is followed by the model (`operating_state` falsy = not given; an empty / absent
+`ports` / `acl` / `routes` / `default_route` section adds nothing either way; a rule's empty `src_port` / `dst_port` / `protocol` means
+"any"; `include_router`) or is not fed from the file (`kwargs.get('sys_log')` …). A NEW `or` / `if value:` in any loader function
+changes this list; the falsy family of the rig then looks for the input. -/
+theorem C20_gen_truthiness_sites :
+    truthinessSites = [
+  ("PrimaiteGame.from_config", "or", "cfg.get('io_settings', {}).get('save_step_metadata')"),
+  ("PrimaiteGame.from_config", "if", "port"),
+  ("Node.__init__", "not", "kwargs.get('sys_log')"),
+  ("Node.__init__", "not", "kwargs.get('session_manager')"),
+  ("Node.__init__", "not", "kwargs.get('root')"),
+  ("Node.__init__", "not", "kwargs.get('file_system')"),
+  ("Node.__init__", "not", "kwargs.get('software_manager')"),
+  ("Node.__init__", "not", "(p := kwargs['config'].operating_state)"),
+  ("Router.from_config", "if", "ports"),
+  ("Router.from_config", "if", "acl"),
+  ("Router.from_config", "not", "(p := r_cfg.get('src_port'))"),
+  ("Router.from_config", "not", "(p := r_cfg.get('dst_port'))"),
+  ("Router.from_config", "not", "(p := r_cfg.get('protocol'))"),
+  ("Router.from_config", "if", "routes"),
+  ("Router.from_config", "if", "default_route"),
+  ("Router.from_config", "if", "next_hop_ip_address"),
+  ("Router.from_config", "not", "(p := config.get('operating_state'))"),
+  ("Router.__init__", "not", "kwargs.get('sys_log')"),
+  ("Router.__init__", "not", "kwargs.get('acl')"),
+  ("Router.__init__", "not", "kwargs.get('route_table')"),
+  ("Firewall.from_config", "if", "config['acl']['internal_inbound_acl']"),
+  ("Firewall.from_config", "not", "(p := r_cfg.get('src_port'))"),
+  ("Firewall.from_config", "not", "(p := r_cfg.get('dst_port'))"),
+  ("Firewall.from_config", "not", "(p := r_cfg.get('protocol'))"),
+  ("Firewall.from_config", "if", "config['acl']['internal_outbound_acl']"),
+  ("Firewall.from_config", "if", "config['acl']['dmz_inbound_acl']"),
+  ("Firewall.from_config", "if", "config['acl']['dmz_outbound_acl']"),
+  ("Firewall.from_config", "if", "config['acl'].get('external_inbound_acl')"),
+  ("Firewall.from_config", "if", "config['acl'].get('external_outbound_acl')"),
+  ("Firewall.from_config", "if", "next_hop_ip_address"),
+  ("Firewall.__init__", "not", "kwargs.get('sys_log')"),
+  ("WirelessRouter.from_config", "not", "(p := config.get('operating_state'))"),
+  ("WirelessRouter.from_config", "not", "(p := r_cfg.get('src_port'))"),
+  ("WirelessRouter.from_config", "not", "(p := r_cfg.get('dst_port'))"),
+  ("WirelessRouter.from_config", "not", "(p := r_cfg.get('protocol'))"),
+  ("WirelessRouter.from_config", "if", "config.get('default_route')"),
+  ("WirelessRouter.from_config", "if", "next_hop_ip_address"),
+  ("OfficeLANAdder.add_nodes_to_net", "if", "config.include_router"),
+  ("EpisodeListScheduler.__call__", "not", "self._exceeded_episode_list")
+]  := by
+  decide
+
 /-! ### what the specification says on the falsy-but-legal values, and what a truthiness rewrite would do -/
 
 /-- a declared 0 / '0' / False / 0.0 beats the default; a declared '' cannot be a duration and is refused (`int('')` raises) -/
